@@ -97,8 +97,14 @@ def xref_stream_widths(ctx, F):
             if d and d[2] == "rv" and d[3]["k"] == "agg" and d[3]["kind"].get("var") == "Array":
                 els = lib.vec_literal(w, d[3]["ops"][0])
                 if els is not None:
-                    how = [w.oname(e, 3) for e in els]
-                    okw = how == ["Object::Integer{1}", "Object::Integer{4}", "Object::Integer{2}"]
+                    how = []
+                    for e in els:
+                        de = w.def_rv(e)
+                        val = None
+                        if de and de[2] == "rv" and de[3]["k"] == "agg" and de[3]["kind"].get("var") == "Integer":
+                            val = lib.const_value(F, w, de[3]["ops"][0])
+                        how.append(val)
+                    okw = how == [1, 4, 2]
     ctx.ob(R, "xref-stream-W", okw, "W = %s" % how, w.where(), what="the W array of the cross-reference stream is not [1 4 2], the widths create_xref_steam writes (%s)" % how)
     # Index pairs and stream length come from the same serialisation
     idx = [c for c in lib.calls_named(b, r"Vec::<.*>::push$") if "xref_index" in b.oname(c.args[0], 2)]
@@ -123,7 +129,7 @@ def section_building(ctx, F):
     R = "R-ORDER"
     for fn in ("Writer::write_xref", "Writer::create_xref_steam"):
         b = F.fn(fn)
-        news = [c for c in b.calls if c.local and c.name.endswith("XrefSection::new")]
+        news = [c for c in b.calls if c.local and c.cname.endswith("XrefSection::new")]
         loops = b.loops()
         inloop = [c for c in news if any(c.bb in bl for bl in loops.values())]
         okn = bool(inloop) and all(re.match(r"^obj_id$|^\w+$", b.oname(c.args[0], 3)) and "Add(" not in b.oname(c.args[0], 4) and "Sub(" not in b.oname(c.args[0], 4) for c in inloop)
@@ -138,8 +144,8 @@ def section_building(ctx, F):
                what="%s starts a subsection at %s instead of the object number of the entry it is about to hold: every entry of that subsection describes the wrong object"
                     % (fn, [b.oname(c.args[0], 4) for c in inloop]))
         # reset-if-empty: an is_empty test whose true edge re-creates the section dominates every add_entry in the loop
-        adds = [c for c in b.calls if c.local and re.search(r"XrefSection::(add_entry|add_unusable_free_entry)$", c.name) and any(c.bb in bl for bl in loops.values())]
-        empt = [c for c in b.calls if c.local and c.name.endswith("XrefSection::is_empty") and any(c.bb in bl for bl in loops.values())]
+        adds = [c for c in b.calls if c.local and re.search(r"XrefSection::(add_entry|add_unusable_free_entry)$", c.cname) and any(c.bb in bl for bl in loops.values())]
+        empt = [c for c in b.calls if c.local and c.cname.endswith("XrefSection::is_empty") and any(c.bb in bl for bl in loops.values())]
         okr = False
         for e in empt:
             if e.to is None:
@@ -155,8 +161,8 @@ def section_building(ctx, F):
                what="%s can add an entry to an empty pending subsection whose starting id is stale (after a run of unused object numbers)" % fn)
     # table starts with object 0 free
     wx = F.fn("Writer::write_xref")
-    first = [c for c in wx.calls if c.local and c.name.endswith("XrefSection::new") and wx.oname(c.args[0], 2) == "0"]
-    fr = [c for c in wx.calls if c.local and c.name.endswith("add_unusable_free_entry")]
+    first = [c for c in wx.calls if c.local and c.cname.endswith("XrefSection::new") and wx.oname(c.args[0], 2) == "0"]
+    fr = [c for c in wx.calls if c.local and c.cname.endswith("add_unusable_free_entry")]
     ctx.ob(R, "table-starts-with-object-0", len(first) == 1 and any(wx.dominates(first[0].bb, c.bb) and not any(c.bb in bl for bl in wx.loops().values()) for c in fr),
            "the table starts with the free entry of object 0", wx.where(), what="the cross-reference table no longer starts with the free-list head entry for object 0")
     lits = [s for s in lib.format_sites(wx) if any(k == "lit" and v.startswith(b"xref") for k, v in s["pieces"])]
@@ -170,9 +176,9 @@ def save_ordering(ctx, F):
         fs = lib.format_sites(b)
         hdr = [s for s in fs if any(k == "lit" and v.startswith(b"%PDF-") for k, v in s["pieces"])]
         sx = [s for s in fs if any(k == "lit" and b"startxref" in v for k, v in s["pieces"])]
-        wio = [c for c in b.calls if c.local and c.name.endswith("Writer::write_indirect_object")]
-        bm = [c for c in b.calls if c.local and c.name.endswith("Writer::write_binary_mark")]
-        wx = [c for c in b.calls if c.local and (c.name.endswith("Writer::write_xref") or c.name.endswith("write_cross_reference_stream"))]
+        wio = [c for c in b.calls if c.local and c.cname.endswith("Writer::write_indirect_object")]
+        bm = [c for c in b.calls if c.local and c.cname.endswith("Writer::write_binary_mark")]
+        wx = [c for c in b.calls if c.local and (c.cname.endswith("Writer::write_xref") or c.cname.endswith("write_cross_reference_stream"))]
         ok = len(hdr) == 1 and len(sx) == 1 and len(bm) == 1 and bool(wio) and len(wx) == 2
         if ok:
             ok = all(b.dominates(hdr[0]["bb"], c.bb) for c in wio + bm + wx) and b.dominates(bm[0].bb, wio[0].bb)
@@ -196,13 +202,13 @@ def save_ordering(ctx, F):
             oks = "xref_start" in lib.traced(b, sx[0]["args"][0].operand, 4) and [v for k, v in sx[0]["pieces"] if k == "lit"] == [b"\nstartxref\n", b"\n%%EOF"]
         ctx.ob(R, "startxref-value|%s" % fn, oks, "`startxref` is followed by xref_start and %%EOF", b.where(), what="the value after `startxref` is not xref_start (or the trailer keywords changed)")
         # the stream variant receives the same xref_start
-        cs = [c for c in wx if c.name.endswith("write_cross_reference_stream")]
+        cs = [c for c in wx if c.cname.endswith("write_cross_reference_stream")]
         okc = len(cs) == 1 and "xref_start" in b.oname(cs[0].args[-1], 4)
         ctx.ob(R, "xref-stream-offset|%s" % fn, okc, "write_cross_reference_stream receives xref_start", b.where(), what="the cross-reference stream is told an offset other than xref_start")
     # Size = max_id + 1 on both paths
     for fn in ("Document::write_trailer", "Document::write_cross_reference_stream"):
         b = F.fn(fn)
-        ss = [c for c in b.calls if c.local and c.name.endswith("Dictionary::set") and re.search(r"Size", b.oname(c.args[1], 4))]
+        ss = [c for c in b.calls if c.local and c.cname.endswith("Dictionary::set") and re.search(r"Size", b.oname(c.args[1], 4))]
         ok = len(ss) == 1 and re.search(r"Add\(\*self\.max_id,1\)", b.oname(ss[0].args[2], 6)) is not None
         if ok and fn.endswith("stream"):
             inc = [(bi, si) for bi, si, s in lib.stores_to_field(b, "max_id")]
